@@ -285,7 +285,7 @@ type peerDev struct {
 	EncAnswer     string
 	ECDH          string // "", "omit", "truncate", "random65", "notb64"
 	NoCipher      bool   // advertise no common cipher
-	Select        string // "", "unoffered", "several", "zero", "fs-repeat" (FILESYSTEM in every round, each exchange answered "failed")
+	Select        string // "", "unoffered", "several", "zero", "all-offered", "all-offered-then-proceed", "fs-repeat" (FILESYSTEM in every round, each exchange answered "failed")
 	FSHook        func(round int, path string, clientResult int64) // fs-repeat: called when the client's answer for a round has arrived
 	Denied        bool   // complete sub-protocol, then post-auth ReturnCode DENIED
 	PostAuthClear bool   // send the post-auth ad in the clear
@@ -417,11 +417,22 @@ func scriptedServer(dev peerDev, out *peerOutcome) func(*netsim.End) error {
 					sel = mask | 2 | 4
 				case "zero":
 					sel = 0
+				case "all-offered", "all-offered-then-proceed":
+					sel = mask // every bit the client offered, at once
 				case "fs-repeat":
 					sel = 4 // FILESYSTEM, whether or not the client still offers it
 				}
 				if err := p.sendMsg(refcodec.EncInt(int64(sel)), false); err != nil {
 					return err
+				}
+				if dev.Select == "all-offered-then-proceed" && sel&(sel-1) != 0 {
+					// several offered bits name no method: nothing can run. This peer carries on as if
+					// authentication were over (key exchange step, then the post-auth ad)
+					p.logf("selected all offered bits %#x and moved on", sel)
+					if err := p.sendMsg(refcodec.EncInt(0), false); err != nil {
+						return err
+					}
+					break
 				}
 				if dev.Select == "fs-repeat" {
 					// server half of one FILESYSTEM exchange: name a directory, read the client's
